@@ -116,6 +116,8 @@ DefaultsConfined == r.vs[3] # r.law => DefaultsClass(sig)
 VarKwConfined == r.vs[5] # r.law => VarKwClass(sig)
 LawUnlessDev == r.vs[8] # r.law => (ZipClass(sig) \/ DefaultsClass(sig) \/ VarKwClass(sig))
 LawAsBuilt == r.vs[8] = r.law
+\* "the evaluation key changes whenever the task hash changes"
+TaskHashSeparates == r.n >= 0 => ~Same(EvalPre("T1", sig, cur, SeqSet(Devs)), EvalPre("T2", sig, cur, SeqSet(Devs)))
 Emit == r.n >= 0 => PrintT("CASE " \o ToJson(<<SigVec(sig), CallVec(c0), CallVec(cur), r.law, r.vs>>))
 ASSUME TagsDistinct
 =============================================================================
